@@ -286,9 +286,20 @@ prop("C16", "exploration",
      "whole call tree and EVERY query result of the state-change tracer with lists IN THE ORDER RETURNED (Children, "
      "ChildrenIndices, IndicesOfChanges, call children, change lists, lookups by slot) must be byte-identical across the "
      "repetitions; the tracer of the unrelated EVM must know nothing about accounts only the other one touched. "
-     "Non-trivial = some returned list has >= 2 elements.",
+     "Non-trivial = some returned list has >= 2 elements. Second stage (TestC16Tx), ANY transaction: T is a call of "
+     "0x64-0x66 of any kind / depth with ABI payloads, a generated program (all forks, extra EIPs, journal sites, Artela "
+     "precompiles) or a scripted tree with real Aspects bound; it runs 4 times (thorough 8) on fresh EVMs and for 85% of "
+     "the cases an unrelated transaction runs on another EVM in between - mostly on the SAME fork, with other extra EIPs, "
+     "reaching the context-carrying precompiles by plain CALL from a drawn caller (everything EVMs of one process could "
+     "share); a sixth of the cases pairs a program on a fork WITHOUT extra EIPs, favouring the instructions extra EIPs "
+     "re-price, with an unrelated execution on the same fork WITH extra EIPs; the stage is split over 8 processes. "
+     "Oracle: the rendering above PLUS every host call made through the precompiles (function, caller address, "
+     "key, value) must be identical in all repetitions. Non-trivial there = an unrelated execution ran in between and T "
+     "had >= 2 frames.",
      [{"test": "TestC16", "quick": {"checks": 350, "shards": 8, "timeout": 600},
-       "thorough": {"checks": 8000, "shards": 16, "timeout": 3000}}])
+       "thorough": {"checks": 8000, "shards": 16, "timeout": 3000}},
+      {"test": "TestC16Tx", "quick": {"checks": 600, "shards": 8, "timeout": 600},
+       "thorough": {"checks": 40000, "shards": 16, "timeout": 3000}}])
 
 prop("C17", "exploration",
      "cases = 3-10 scenarios per case (always the pair 'London without / with extra EIP-3855 executing PUSH0', plus generated "
